@@ -29,7 +29,7 @@ func (c *SymbolRootNode) Add(value string, tokenType int) {
 	v := []rune(value)
 	childNode := c.EnsureChildWithChar(v[0])
 
-	if childNode.TokenType() == tokenizers.Unknown {
+	if !childNode.Valid() {
 		childNode.SetValid(true)
 		childNode.SetTokenType(tokenizers.Symbol)
 	}
